@@ -12,7 +12,7 @@
 From Coq Require Import ZArith List String Bool Permutation.
 Import ListNotations.
 From TK Require Import Par_Model Par_Spec Par_Proof Par_Region_Model Par_Region_Proof Par_Region_Gen
-  Par_Fill_Model Par_Fill_Proof Par_Example Omp.
+  Par_Fill_Model Par_Fill_Proof Par_Row_Model Par_Row_Proof Par_Example Omp.
 
 (* ---------------------------------------------------------------- generic theorems (once) *)
 
@@ -256,7 +256,7 @@ Print Assumptions c15_sym_fill_all_schedules.
 
 (* T15 the descriptors T-omp extracts for those regions have exactly the shape T14's body conforms to *)
 Theorem c15_gen_sym_shapes :
-  Forall (fun r => map acc_shape (r_shared r) = map acc_shape (sym_accs ""))
+  Forall (fun r => same_shapes (r_shared r) (sym_accs "") = true)
          (filter is_sym_region regions).
 Proof. exact Par_Region_Gen.gen_sym_shapes. Qed.
 Print Assumptions c15_gen_sym_shapes.
@@ -282,3 +282,43 @@ Theorem c15_hlle_body_old_refuted : forall (V C : Type) (v0 : V) (c0 : C),
   ~ reinit (fun _ => False) (hlle_body V C v0 c0 hlle_step_old hlle_col_expected 3).
 Proof. exact Par_Fill_Proof.hlle_body_old_not_reinit. Qed.
 Print Assumptions c15_hlle_body_old_refuted.
+
+(* ---------------------------------------------------------------- triangulate end to end *)
+
+(* T17 the loop body of triangulate as a program of the model (skip landmarks; fill the thread-private
+   scratch vector; read it back; write row i): for EVERY N, number of landmarks L, target dimension d,
+   assignment and interleaving there is no race, and row i of the result is h(i, ., [g(i,0)..g(i,L-1)])
+   — it never sees scratch values left by another sample *)
+Theorem c15_triangulate_all_schedules :
+  forall (V C : Type) (evar svar : string) (g : nat -> nat -> V) (h : nat -> nat -> list V -> V)
+         (skip : nat -> bool) N L d asg (m0 : key -> V) p0 sch qs st,
+    valid_asg N asg ->
+    run_sched key_eqb sch (init_queues (tri_body V C evar svar g h skip L d) asg, mkState m0 p0 []) = (qs, st) ->
+    ~ race qs /\
+    (done qs -> forall i c, i < N -> c < d ->
+       sh st (mkey evar i c) = if skip i then m0 (mkey evar i c) else h i c (map (g i) (seq 0 L))).
+Proof. exact Par_Row_Proof.triangulate_all_schedules. Qed.
+Print Assumptions c15_triangulate_all_schedules.
+
+Theorem c15_gen_row_shape :
+  Forall (fun r => same_shapes (r_shared r) (row_accs "") = true /\
+                   existsb (fun p => match p_class p with PInit => true | _ => false end) (r_private r) = true)
+         (filter (fun r => contains "triangulate" (r_name r)) regions).
+Proof. exact Par_Region_Gen.gen_row_shape. Qed.
+Print Assumptions c15_gen_row_shape.
+
+(* ---------------------------------------------------------------- critical sections that commute *)
+
+(* T18 the general form of "critical bodies commute up to ~": interpret every logged block as a
+   transformer of an accumulator; if the transformers respect ~ and commute up to ~, two runs that log
+   the same blocks per iteration (T2/T3) end in ~-equal accumulators, whatever the order of the
+   critical sections *)
+Theorem c15_crit_commute_logs :
+  forall (A C : Type) (eqv : A -> A -> Prop) (apply : C -> A -> A),
+    (forall a, eqv a a) -> (forall a b c, eqv a b -> eqv b c -> eqv a c) ->
+    (forall c a a', eqv a a' -> eqv (apply c a) (apply c a')) ->
+    (forall c1 c2 a, eqv (apply c1 (apply c2 a)) (apply c2 (apply c1 a))) ->
+  forall (lg lg' : list (nat * C)), (forall i, proj i lg = proj i lg') ->
+  forall a, eqv (apply_all A C apply (map snd lg) a) (apply_all A C apply (map snd lg') a).
+Proof. exact Par_Proof.crit_commute_logs. Qed.
+Print Assumptions c15_crit_commute_logs.
